@@ -77,6 +77,11 @@ def check(run: Run, prog: Program, model: Model, tier: str) -> None:
                 run.violated("TARGETS-RESOLVE", construct, mod.path,
                              f"name {new_name!r} is not bound at top level of {new_mod}",
                              witness=f"from {new_mod} import {new_name}")
+            elif not prog.runtime_bound(new_mod, new_name):
+                run.violated("TARGETS-RESOLVE", construct, mod.path,
+                             f"name {new_name!r} is only imported under `if TYPE_CHECKING:` on the way from {new_mod}: it does not "
+                             "exist at run time",
+                             witness=f"from {new_mod} import {new_name}   # ImportError in the migrated module")
             else:
                 where = getattr(r, "qualname", None) or (r.name if isinstance(r, Module) else str(r)[:60])
                 run.holds("TARGETS-RESOLVE", construct, mod.path, f"-> {where}", nontrivial=not direct)
